@@ -9,6 +9,7 @@ package main
 
 import (
 	"fmt"
+	"sort"
 	"time"
 
 	dbm "github.com/cometbft/cometbft-db"
@@ -154,7 +155,13 @@ func (e *Env) InitGenesis(g *Genesis) {
 	e.bk.SetParams(ctx, banktypes.DefaultParams())
 	e.dk.SetFeePool(ctx, distrtypes.InitialFeePool())
 	// module accounts exist from the start
+	// sorted: account numbers must not depend on Go's map iteration order
+	modNames := []string{}
 	for name := range app.ModuleAccPerms() {
+		modNames = append(modNames, name)
+	}
+	sort.Strings(modNames)
+	for _, name := range modNames {
 		e.ak.GetModuleAccount(ctx, name)
 	}
 	mp := minttypes.DefaultParams()
